@@ -5,7 +5,8 @@ outcome. pkg/cli/cmd contains wall-clock based tests that fail on a busy
 machine with or without any patch; every other package passed in the first
 (complete) suite run recorded in meta.json.
 
-  seeded_suite_recheck.py [id ...]
+  seeded_suite_recheck.py [id ...]          re-run the packages that failed
+  seeded_suite_recheck.py --full [id ...]   run the complete suite first (changes evaluated with --skip-suite)
 """
 import json, os, subprocess, sys, shutil
 
@@ -19,8 +20,16 @@ def sh(cmd, cwd=None, timeout=3600):
 
 
 def main():
-    ids = sys.argv[1:]
-    if not ids:
+    args = sys.argv[1:]
+    full = "--full" in args
+    ids = [a for a in args if not a.startswith("--")]
+    if not ids and full:
+        # every seeded change whose complete suite run has not been recorded yet
+        for d in sorted(os.listdir(os.path.join(ROOT, "seeded"))):
+            mp = os.path.join(ROOT, "seeded", d, "meta.json")
+            if os.path.exists(mp) and json.load(open(mp)).get("confirmed", {}).get("suite_pass") is None:
+                ids.append(d)
+    elif not ids:
         for d in sorted(os.listdir(os.path.join(ROOT, "seeded"))):
             mp = os.path.join(ROOT, "seeded", d, "meta.json")
             if os.path.exists(mp) and json.load(open(mp)).get("confirmed", {}).get("suite_pass") is False:
@@ -42,11 +51,22 @@ def main():
                 for l in r["tail"].splitlines():
                     if l.startswith("FAIL\t"):
                         pkgs.add(l.split()[1].replace("github.com/furiko-io/furiko", "."))
+        if full:
+            rc, o = sh("go test -count=1 -p 4 ./pkg/... ./apis/... ./cmd/... 2>&1 | grep -v 'no test files' | grep -v '^ok' | tail -40", cwd=wt, timeout=3600)
+            pkgs = set(l.split()[1].replace("github.com/furiko-io/furiko", ".") for l in o.splitlines() if l.startswith("FAIL\t"))
+            meta.setdefault("what_was_run", []).append({"step": "existing suite with patch (complete, -p 4)", "exit": 1 if pkgs else 0, "tail": o[-400:]})
+            if not pkgs:
+                meta["confirmed"]["suite_pass"] = True
+                json.dump(meta, open(os.path.join(out, "meta.json"), "w"), indent=1)
+                print(mid, "suite_pass=True (complete run)", flush=True)
+                sh("git -C %s worktree remove --force %s" % (REPO, wt))
+                shutil.rmtree(wt, ignore_errors=True)
+                continue
         if not pkgs:
             pkgs = {"./pkg/cli/cmd"}
         ok = True
         tail = ""
-        for attempt in range(2):
+        for attempt in range(3):
             rc, o = sh("go test -count=1 -p 1 %s 2>&1 | tail -5" % " ".join(sorted(pkgs)), cwd=wt, timeout=1800)
             tail = o
             ok = not any(l.startswith("FAIL") or l.startswith("--- FAIL") for l in o.splitlines())
